@@ -200,7 +200,7 @@ pub fn c07(ctx: &Ctx) -> Report {
         s.set_remote = vec![1, 4, 8, 10];
         runs.push(SliceRun { slice: s, depth: ctx.tier.pick(6, 8) });
     }
-    let req = ["response delivered", "forged or unauthenticated response dropped, state unchanged (self-loop)", "genuine SHA-1 response delivered to an authenticated request", "genuine SHA-256 response delivered to an authenticated request", "genuine SHA-1+SHA-256 response delivered to an authenticated request", "timed out"];
+    let req = ["response delivered", "forged or unauthenticated response dropped", "genuine SHA-1 response delivered to an authenticated request", "genuine SHA-256 response delivered to an authenticated request", "genuine SHA-1+SHA-256 response delivered to an authenticated request", "timed out"];
     run_slices(ctx, runs, &req, "all histories up to the depth over {send with no / SHA-1 / SHA-256 / both integrity (also behind 18 other attributes), responses unsigned / SHA-1 under R1, R2, local key / SHA-256 under R1, R2 / both / one HMAC bit flipped x success, error x two sources, set remote credentials R1/R2/long-term at any point (unset, set, changed mid-transaction), set local credentials, poll now/wake/wake+1, configure (7ms,3,0), cancel, cancel_retransmissions}, <= 2 live; delivery judged by the reference HMAC; drain from every state; plus single-transaction schedules of an authenticated request to completion with a forged / unsigned / corrupted / local-key / genuine response at every step index x 2 poll patterns x 6 base configurations (all in thorough); plus success and error responses of every code 300..=699 x {NONCE, REALM, ALTERNATE-SERVER, FINGERPRINT present or not} x five integrity states x short- / long-term credentials (agent/scale.rs, responses)", Some(crate::agent::schedule::forgery_sweep(ctx).merge(crate::agent::scale::sweep("C07", ctx.tier == Tier::Thorough))))
 }
 
